@@ -1126,4 +1126,831 @@ theorem uvlc_initial_roundtrip' (u0 u1 rest : Nat) (h0 : u0 ≤ 32) (h1 : u1 ≤
         exact hspec ⟨by omega, by omega⟩
       rw [henc, hmode, pairWindow_rest, initial_core_general c0 c1 s0 s1 rest hc0 hc1 hs0 hs1 hn, hu0, hu1]
 
+/-! ## HT packet header bands -/
+
+def HtBand.bits : HtBand → List Bool
+  | .absent => []
+  | .empty => [false]
+  | .coded body => body
+
+def HtBand.isCoded : HtBand → Bool
+  | .coded _ => true
+  | _ => false
+
+def bandsBits (bands : List HtBand) : List Bool := (bands.map HtBand.bits).flatten
+
+theorem foldl_coded (bands : List HtBand) : ∀ (out : List Bool) (sk : Nat),
+    (bands.foldl HtHdrSt.band ⟨out, true, sk⟩).coded = true ∧
+    (bands.foldl HtHdrSt.band ⟨out, true, sk⟩).out = out ++ bandsBits bands := by
+  induction bands with
+  | nil => intro out sk; simp [bandsBits]
+  | cons b bs ih =>
+    intro out sk
+    cases b with
+    | absent => simpa [HtHdrSt.band, bandsBits, HtBand.bits] using ih out sk
+    | empty =>
+      have := ih (out ++ [false]) sk
+      simpa [HtHdrSt.band, bandsBits, HtBand.bits, List.append_assoc] using this
+    | coded body =>
+      have := ih (out ++ body) sk
+      simpa [HtHdrSt.band, bandsBits, HtBand.bits, List.append_assoc] using this
+
+theorem foldl_uncoded (bands : List HtBand) : ∀ (sk : Nat),
+    if bands.any HtBand.isCoded then
+      (bands.foldl HtHdrSt.band ⟨[], false, sk⟩).coded = true ∧
+      (bands.foldl HtHdrSt.band ⟨[], false, sk⟩).out = true :: (List.replicate sk false ++ bandsBits bands)
+    else (bands.foldl HtHdrSt.band ⟨[], false, sk⟩).coded = false ∧
+      (bands.foldl HtHdrSt.band ⟨[], false, sk⟩).out = [] := by
+  induction bands with
+  | nil => intro sk; simp
+  | cons b bs ih =>
+    intro sk
+    cases b with
+    | absent => simpa [HtHdrSt.band, bandsBits, HtBand.bits, HtBand.isCoded] using ih sk
+    | empty =>
+      have := ih (sk + 1)
+      by_cases hc : bs.any HtBand.isCoded = true
+      · simp only [hc, if_true] at this
+        simp only [List.any_cons, HtBand.isCoded, Bool.false_or, hc, if_true, List.foldl_cons, HtHdrSt.band]
+        simp only [Bool.false_eq_true, if_false]
+        refine ⟨this.1, ?_⟩
+        rw [this.2]
+        simp [bandsBits, HtBand.bits, List.replicate_succ', List.append_assoc]
+      · simp only [hc] at this
+        simp only [List.any_cons, HtBand.isCoded, Bool.false_or, hc, List.foldl_cons, HtHdrSt.band]
+        simpa using this
+    | coded body =>
+      have := foldl_coded bs ([] ++ [true] ++ List.replicate sk false ++ body) sk
+      simp only [List.any_cons, HtBand.isCoded, Bool.true_or, if_true, List.foldl_cons, HtHdrSt.band]
+      simp only [Bool.false_eq_true, if_false]
+      refine ⟨this.1, ?_⟩
+      rw [this.2]
+      simp [bandsBits, HtBand.bits, List.append_assoc]
+
+/-- what the header writer emits: `0` for a packet without any coded band, else `1` followed by the bands' bits in order,
+    `0` for every band that has code-blocks but none coded — one bit PER such band, also before the first coded band -/
+theorem encodeHtBands_eq (bands : List HtBand) :
+    encodeHtBands bands = if bands.any HtBand.isCoded then true :: bandsBits bands else [false] := by
+  unfold encodeHtBands
+  have h := foldl_uncoded bands 0
+  show (let st := bands.foldl HtHdrSt.band ⟨[], false, 0⟩; if st.coded then st.out else st.out ++ [false]) = _
+  split at h
+  · rename_i hc; simp [hc, h.1, h.2]
+  · rename_i hc; simp [hc, h.1, h.2]
+
+/-- a coded band's bits start with the root inclusion bit 1 (some block is included) and its remainder is
+    self-delimiting for the band parser -/
+def HtBand.WellFormed {α : Type} (parseTail : List Bool → Option (α × List Bool)) (info : List Bool → α) : HtBand → Prop
+  | .coded body => ∃ tail, body = true :: tail ∧ ∀ rest, parseTail (tail ++ rest) = some (info tail, rest)
+  | _ => True
+
+def HtBand.present : HtBand → Bool
+  | .absent => false
+  | _ => true
+
+def HtBand.result {α : Type} (info : List Bool → α) : HtBand → Option (Option α)
+  | .absent => none
+  | .empty => some none
+  | .coded body => some (some (info body.tail))
+
+theorem decodeAux_bands {α : Type} (parseTail : List Bool → Option (α × List Bool)) (info : List Bool → α)
+    (bands : List HtBand) (hwf : ∀ b ∈ bands, b.WellFormed parseTail info) (rest : List Bool) :
+    decodeHtBandsAux parseTail (bands.map HtBand.present) (bandsBits bands ++ rest) =
+      some (bands.map (HtBand.result info), rest) := by
+  induction bands with
+  | nil => simp [decodeHtBandsAux, bandsBits]
+  | cons b bs ih =>
+    have ih' := ih (fun x hx => hwf x (List.mem_cons_of_mem _ hx))
+    cases b with
+    | absent =>
+      simp only [List.map_cons, HtBand.present, decodeHtBandsAux, HtBand.result]
+      have : bandsBits (HtBand.absent :: bs) = bandsBits bs := by simp [bandsBits, HtBand.bits]
+      rw [this, ih']; rfl
+    | empty =>
+      have : bandsBits (HtBand.empty :: bs) ++ rest = false :: (bandsBits bs ++ rest) := by
+        simp [bandsBits, HtBand.bits]
+      simp only [List.map_cons, HtBand.present, HtBand.result]
+      rw [this, decodeHtBandsAux, ih']; rfl
+    | coded body =>
+      obtain ⟨tail, hb, hp⟩ := hwf (HtBand.coded body) (List.mem_cons_self)
+      have : bandsBits (HtBand.coded body :: bs) ++ rest = true :: (tail ++ (bandsBits bs ++ rest)) := by
+        simp [bandsBits, HtBand.bits, hb, List.append_assoc]
+      simp only [List.map_cons, HtBand.present, HtBand.result]
+      rw [this, decodeHtBandsAux, hp]
+      simp only [ih', Option.map_some, hb, List.tail_cons]
+
+/-- HT packet header round trip at band granularity, any pattern of absent / empty / coded bands -/
+theorem ht_bands_roundtrip' {α : Type} (parseTail : List Bool → Option (α × List Bool)) (info : List Bool → α)
+    (bands : List HtBand) (hwf : ∀ b ∈ bands, b.WellFormed parseTail info) (rest : List Bool) :
+    decodeHtBands parseTail (bands.map HtBand.present) (encodeHtBands bands ++ rest) =
+      some (bands.map (HtBand.result info), rest) := by
+  rw [encodeHtBands_eq]
+  by_cases hc : bands.any HtBand.isCoded = true
+  · simp only [hc, if_true, List.cons_append, decodeHtBands]
+    exact decodeAux_bands parseTail info bands hwf rest
+  · have hc' : bands.any HtBand.isCoded = false := by simpa using hc
+    simp only [hc', Bool.false_eq_true, if_false, List.cons_append, List.nil_append, decodeHtBands]
+    congr 2
+    rw [List.map_map]
+    apply List.map_congr_left
+    intro b hb
+    cases b with
+    | absent => rfl
+    | empty => rfl
+    | coded body =>
+      exfalso; apply hc
+      exact List.any_eq_true.mpr ⟨_, hb, rfl⟩
+
+/-! ## U_q range -/
+
+theorem bitLen_le (x k : Nat) (h : x < 2 ^ k) : bitLen x ≤ k := by
+  unfold bitLen
+  by_cases hx : x = 0
+  · simp [hx]
+  · simp only [hx, if_false]
+    have := (Nat.log2_lt hx).mpr h
+    omega
+
+theorem bitLen_eq (x k : Nat) (h1 : 2 ^ k ≤ x) (h2 : x < 2 ^ (k + 1)) : bitLen x = k + 1 := by
+  have hx : x ≠ 0 := by have := Nat.two_pow_pos k; omega
+  unfold bitLen
+  simp only [hx, if_false]
+  rw [(Nat.log2_eq_iff hx).mpr ⟨h1, h2⟩]
+
+/-- the cleanup encoder sees twice the magnitude: `((t+t) >> p) &^ 1 = 2·|v|` for a word built with the same Kmax -/
+theorem sampleVal_signMag (kmax : Nat) (hk : 1 ≤ kmax ∧ kmax ≤ 30) (v : Int) (hv : v.natAbs < 2 ^ kmax) :
+    sampleVal kmax (toSignMag kmax v) = 2 * v.natAbs := by
+  have hpow : 2 ^ kmax * 2 ^ (31 - kmax) = 2 ^ 31 := by rw [← Nat.pow_add]; congr 1; omega
+  have hpos : 0 < 2 ^ (31 - kmax) := Nat.two_pow_pos _
+  have hlt : v.natAbs * 2 ^ (31 - kmax) < 2 ^ 31 := by
+    rw [← hpow]; exact Nat.mul_lt_mul_of_pos_right hv hpos
+  have hval : v.natAbs * 2 ^ (31 - kmax) % 2 ^ 32 = v.natAbs * 2 ^ (31 - kmax) :=
+    Nat.mod_eq_of_lt (by have : (2 : Nat) ^ 31 < 2 ^ 32 := by decide
+                         omega)
+  have key : ∀ s : Nat, (s = 0 ∨ s = 2 ^ 31) →
+      2 * (s + v.natAbs * 2 ^ (31 - kmax)) % 2 ^ 32 = 2 * v.natAbs * 2 ^ (31 - kmax) := by
+    intro s hs
+    have e : 2 * v.natAbs * 2 ^ (31 - kmax) = 2 * (v.natAbs * 2 ^ (31 - kmax)) := Nat.mul_assoc _ _ _
+    rw [e]
+    have h32 : (2 : Nat) ^ 32 = 2 * 2 ^ 31 := by decide
+    rcases hs with rfl | rfl <;> omega
+  unfold sampleVal toSignMag
+  simp only [hval]
+  by_cases hneg : v < 0
+  · simp only [hneg, if_true]
+    have hor : 2 ^ 31 ||| v.natAbs * 2 ^ (31 - kmax) = 2 ^ 31 + v.natAbs * 2 ^ (31 - kmax) := by
+      have := Nat.two_pow_add_eq_or_of_lt hlt 1
+      rw [Nat.mul_one] at this
+      exact this.symm
+    rw [hor, key _ (Or.inr rfl), Nat.mul_div_cancel _ hpos]
+    omega
+  · simp only [hneg, if_false, Nat.zero_or]
+    have := key 0 (Or.inl rfl)
+    rw [Nat.zero_add] at this
+    rw [this, Nat.mul_div_cancel _ hpos]
+    omega
+
+/-- exponent of a significant coefficient: between 1 and Kmax+1 -/
+theorem sampleEQ_range (kmax : Nat) (hk : 1 ≤ kmax ∧ kmax ≤ 30) (v : Int) (hv : v.natAbs < 2 ^ kmax) :
+    sampleEQ kmax (toSignMag kmax v) ≤ kmax + 1 ∧ (v ≠ 0 → 1 ≤ sampleEQ kmax (toSignMag kmax v)) ∧
+    (v = 0 → sampleEQ kmax (toSignMag kmax v) = 0) := by
+  unfold sampleEQ
+  rw [sampleVal_signMag kmax hk v hv]
+  refine ⟨?_, ?_, ?_⟩
+  · by_cases h0 : 2 * v.natAbs = 0
+    · simp [h0]
+    · simp only [h0, if_false]
+      apply bitLen_le
+      rw [Nat.pow_succ]; omega
+  · intro hne
+    have : v.natAbs ≠ 0 := by omega
+    have h0 : 2 * v.natAbs ≠ 0 := by omega
+    simp only [h0, if_false]
+    unfold bitLen
+    have : 2 * v.natAbs - 1 ≠ 0 := by omega
+    simp [this]
+  · intro h; simp [h]
+
+/-- every exponent 1..Kmax+1 is produced by some admissible coefficient (Kmax ≥ 2): the range is exact -/
+theorem sampleEQ_onto (kmax e : Nat) (hk : 2 ≤ kmax ∧ kmax ≤ 30) (he : 1 ≤ e ∧ e ≤ kmax + 1) :
+    ∃ v : Int, v.natAbs < 2 ^ kmax ∧ sampleEQ kmax (toSignMag kmax v) = e := by
+  by_cases h1 : e = 1
+  · refine ⟨1, ?_, ?_⟩
+    · have : 2 ^ 1 ≤ 2 ^ kmax := Nat.pow_le_pow_right (by omega) (by omega)
+      simpa using (by omega : 1 < 2 ^ kmax)
+    · unfold sampleEQ
+      rw [sampleVal_signMag kmax ⟨by omega, hk.2⟩ 1 (by
+        have : 2 ^ 1 ≤ 2 ^ kmax := Nat.pow_le_pow_right (by omega) (by omega)
+        simpa using (by omega : 1 < 2 ^ kmax))]
+      subst h1; decide
+  · obtain ⟨j, hj⟩ : ∃ j, e = j + 2 := ⟨e - 2, by omega⟩
+    have hjk : j + 1 ≤ kmax := by omega
+    have hp1 : 2 ^ (j + 1) ≤ 2 ^ kmax := Nat.pow_le_pow_right (by omega) hjk
+    have hp2 : 2 ^ (j + 1) = 2 * 2 ^ j := by rw [Nat.pow_succ]; omega
+    have hjpos : 0 < 2 ^ j := Nat.two_pow_pos j
+    have hlt : ((2 ^ j + 1 : Nat) : Int).natAbs < 2 ^ kmax := by
+      simp only [Int.natAbs_natCast]
+      by_cases hj0 : j = 0
+      · subst hj0
+        have : 2 ^ 2 ≤ 2 ^ kmax := Nat.pow_le_pow_right (by omega) (by omega)
+        simp at this ⊢; omega
+      · have : 2 ≤ 2 ^ j := by
+          have := Nat.pow_le_pow_right (n := 2) (by omega) (by omega : 1 ≤ j)
+          simpa using this
+        omega
+    refine ⟨((2 ^ j + 1 : Nat) : Int), hlt, ?_⟩
+    unfold sampleEQ
+    rw [sampleVal_signMag kmax ⟨by omega, hk.2⟩ _ hlt]
+    simp only [Int.natAbs_natCast]
+    have h0 : 2 * (2 ^ j + 1) ≠ 0 := by omega
+    simp only [h0, if_false]
+    rw [hj]
+    apply bitLen_eq
+    · omega
+    · rw [Nat.pow_succ, hp2]; omega
+
+theorem uqLater_range (kmax eQMax e0 e1 : Nat) (two : Bool) (hq : eQMax ≤ kmax + 1) (h0 : e0 ≤ kmax + 1) (h1 : e1 ≤ kmax + 1) :
+    1 ≤ uqLater eQMax two e0 e1 ∧ uqLater eQMax two e0 e1 ≤ kmax + 1 := by
+  unfold uqLater
+  cases two <;> simp <;> omega
+
+/-! ## LSB-first bit lists -/
+
+/-- the `n` low bits of `v`, least significant first -/
+def bitsLSB : Nat → Nat → List Bool
+  | 0, _ => []
+  | n + 1, v => decide (v % 2 = 1) :: bitsLSB n (v / 2)
+
+def valLSB : List Bool → Nat
+  | [] => 0
+  | b :: l => b.toNat + 2 * valLSB l
+
+theorem bitsLSB_length (n v : Nat) : (bitsLSB n v).length = n := by
+  induction n generalizing v with
+  | zero => rfl
+  | succ n ih => simp [bitsLSB, ih]
+
+theorem valLSB_bitsLSB (n : Nat) : ∀ v, valLSB (bitsLSB n v) = v % 2 ^ n := by
+  induction n with
+  | zero => intro v; simp [bitsLSB, valLSB, Nat.mod_one]
+  | succ n ih =>
+    intro v
+    simp only [bitsLSB, valLSB, ih]
+    rw [Nat.pow_succ', Nat.mod_mul]
+    have : (decide (v % 2 = 1)).toNat = v % 2 := by
+      have := Nat.mod_lt v (by decide : 2 > 0)
+      by_cases h : v % 2 = 1
+      · simp [h]
+      · have : v % 2 = 0 := by omega
+        simp [this]
+    rw [this]
+
+theorem bitsLSB_add (a : Nat) : ∀ (b v : Nat), bitsLSB (a + b) v = bitsLSB a v ++ bitsLSB b (v / 2 ^ a) := by
+  induction a with
+  | zero => intro b v; simp [bitsLSB]
+  | succ a ih =>
+    intro b v
+    rw [show a + 1 + b = (a + b) + 1 by omega]
+    simp only [bitsLSB, ih, List.cons_append]
+    rw [Nat.div_div_eq_div_mul, Nat.pow_succ']
+
+theorem bitsLSB_mod (n : Nat) : ∀ v, bitsLSB n (v % 2 ^ n) = bitsLSB n v := by
+  induction n with
+  | zero => intro v; rfl
+  | succ n ih =>
+    intro v
+    simp only [bitsLSB]
+    have h1 : v % 2 ^ (n + 1) % 2 = v % 2 := by
+      rw [Nat.pow_succ', Nat.mod_mul]; omega
+    have h2 : v % 2 ^ (n + 1) / 2 = v / 2 % 2 ^ n := by
+      rw [Nat.pow_succ', Nat.mod_mul]
+      have := Nat.mod_lt v (by decide : 2 > 0)
+      omega
+    rw [h1, h2, ih]
+
+theorem bitsLSB_concat (a : Nat) : ∀ (b v w : Nat), v < 2 ^ a →
+    bitsLSB (a + b) (v + w * 2 ^ a) = bitsLSB a v ++ bitsLSB b w := by
+  intro b v w hv
+  rw [bitsLSB_add]
+  have hp : 0 < 2 ^ a := Nat.two_pow_pos a
+  have h1 : (v + w * 2 ^ a) / 2 ^ a = w := by
+    rw [Nat.add_mul_div_right _ _ hp, Nat.div_eq_of_lt hv, Nat.zero_add]
+  have h2 : bitsLSB a (v + w * 2 ^ a) = bitsLSB a v := by
+    rw [← bitsLSB_mod a (v + w * 2 ^ a), Nat.add_mul_mod_self_right, Nat.mod_eq_of_lt hv]
+  rw [h1, h2]
+
+theorem bitsLSB_ones (t : Nat) : bitsLSB t (2 ^ t - 1) = List.replicate t true := by
+  induction t with
+  | zero => rfl
+  | succ t ih =>
+    have hp : 0 < 2 ^ t := Nat.two_pow_pos t
+    have e : 2 ^ (t + 1) - 1 = 1 + (2 ^ t - 1) * 2 := by rw [Nat.pow_succ]; omega
+    simp only [bitsLSB, List.replicate_succ]
+    have h1 : (2 ^ (t + 1) - 1) % 2 = 1 := by rw [e]; omega
+    have h2 : (2 ^ (t + 1) - 1) / 2 = 2 ^ t - 1 := by rw [e]; omega
+    rw [h1, h2, ih]; rfl
+
+/-- stream reading with implicit all-ones continuation (the MagSgn decoder feeds 0xFF beyond the data) -/
+def sbit (l : List Bool) (i : Nat) : Bool := l.getD i true
+
+
+/-! ## MagSgn writer lemmas -/
+
+/-- 7 low bits of a byte after 0xFF, 8 otherwise, least significant first -/
+def unpackL : Bool → List Nat → List Bool
+  | _, [] => []
+  | ff, x :: xs => (if ff then bitsLSB 7 x else bitsLSB 8 x) ++ unpackL (decide (x = 255)) xs
+
+theorem unpackL_snoc (ff : Bool) (a : List Nat) (x : Nat) :
+    unpackL ff (a ++ [x]) = unpackL ff a ++ (if lastFF ff a then bitsLSB 7 x else bitsLSB 8 x) := by
+  induction a generalizing ff with
+  | nil => cases ff <;> simp [unpackL, lastFF]
+  | cons y ys ih => rw [List.cons_append, unpackL, unpackL, ih, lastFF, List.append_assoc]
+
+def MsWriter.view (m : MsWriter) : List Bool := unpackL false m.buf ++ bitsLSB m.usedBits m.tmp
+
+structure MsWriter.Inv (m : MsWriter) : Prop where
+  used : m.usedBits < m.maxBits
+  tmp : m.tmp < 2 ^ m.usedBits
+  maxb : m.maxBits = if lastFF false m.buf then 7 else 8
+  stuffed : Stuffed false m.buf
+  bytes : ∀ x ∈ m.buf, x < 256
+
+theorem msw_loop (f : Nat) : ∀ (m : MsWriter) (cwd len : Nat), m.Inv → len ≤ f →
+    (MsWriter.encodeLoop f m cwd len).Inv ∧
+    (MsWriter.encodeLoop f m cwd len).view = m.view ++ bitsLSB len cwd := by
+  induction f with
+  | zero =>
+    intro m cwd len hi hl
+    have : len = 0 := by omega
+    subst this
+    simp [MsWriter.encodeLoop, hi, bitsLSB]
+  | succ f ih =>
+    intro m cwd len hi hl
+    unfold MsWriter.encodeLoop
+    by_cases h0 : len = 0
+    · subst h0; simp [hi, bitsLSB]
+    · simp only [h0, if_false]
+      have hmax8 : m.maxBits ≤ 8 := by rw [hi.maxb]; split <;> omega
+      have ht1 : 1 ≤ min (m.maxBits - m.usedBits) len := by have := hi.used; omega
+      have htl : min (m.maxBits - m.usedBits) len ≤ len := Nat.min_le_right _ _
+      generalize ht : min (m.maxBits - m.usedBits) len = t at ht1 htl
+      have htm : m.usedBits + t ≤ m.maxBits := by have := Nat.min_le_left (m.maxBits - m.usedBits) len; omega
+      -- the register after OR-ing the chunk in
+      have hx : cwd % 2 ^ t < 2 ^ t := Nat.mod_lt _ (Nat.two_pow_pos t)
+      have hreg : bitsLSB (m.usedBits + t) (m.tmp + cwd % 2 ^ t * 2 ^ m.usedBits) =
+          bitsLSB m.usedBits m.tmp ++ bitsLSB t cwd := by
+        rw [bitsLSB_concat _ _ _ _ hi.tmp, bitsLSB_mod]
+      have hlt : m.tmp + cwd % 2 ^ t * 2 ^ m.usedBits < 2 ^ (m.usedBits + t) := by
+        rw [Nat.pow_add]
+        have h1 : cwd % 2 ^ t * 2 ^ m.usedBits ≤ (2 ^ t - 1) * 2 ^ m.usedBits :=
+          Nat.mul_le_mul_right _ (by omega)
+        have h2 : (2 ^ t - 1) * 2 ^ m.usedBits = 2 ^ t * 2 ^ m.usedBits - 2 ^ m.usedBits := by
+          rw [Nat.sub_mul, Nat.one_mul]
+        have h3 : 2 ^ m.usedBits ≤ 2 ^ t * 2 ^ m.usedBits :=
+          Nat.le_mul_of_pos_left _ (Nat.two_pow_pos t)
+        have := hi.tmp
+        rw [Nat.mul_comm (2 ^ m.usedBits) (2 ^ t)]
+        omega
+      have hsplit : bitsLSB len cwd = bitsLSB t cwd ++ bitsLSB (len - t) (cwd / 2 ^ t) := by
+        rw [← bitsLSB_add]; congr 1; omega
+      by_cases hfull : m.usedBits + t ≥ m.maxBits
+      · have hfull' : m.usedBits + t = m.maxBits := by omega
+        simp only [hfull, if_true]
+        have hb256 : m.tmp + cwd % 2 ^ t * 2 ^ m.usedBits < 256 := by
+          have : 2 ^ (m.usedBits + t) ≤ 2 ^ 8 := Nat.pow_le_pow_right (by omega) (by omega)
+          omega
+        rw [Nat.mod_eq_of_lt hb256]
+        generalize hB : m.tmp + cwd % 2 ^ t * 2 ^ m.usedBits = B at *
+        have hinv' : MsWriter.Inv { buf := m.buf ++ [B], maxBits := if B = 255 then 7 else 8, usedBits := 0, tmp := 0 } := by
+          refine ⟨by show 0 < (if B = 255 then 7 else 8); split <;> omega, by simp, ?_, ?_, ?_⟩
+          · show (if B = 255 then 7 else 8) = if lastFF false (m.buf ++ [B]) then 7 else 8
+            rw [lastFF_snoc]; by_cases hb : B = 255 <;> simp [hb]
+          · apply stuffed_snoc _ _ _ hi.stuffed
+            intro hff
+            have : m.maxBits = 7 := by rw [hi.maxb, hff]; rfl
+            have : 2 ^ (m.usedBits + t) = 128 := by rw [hfull', this]
+            omega
+          · intro x hx
+            rcases List.mem_append.mp hx with h | h
+            · exact hi.bytes x h
+            · have : x = B := by simpa using h
+              omega
+        obtain ⟨i1, i2⟩ := ih _ (cwd / 2 ^ t) (len - t) hinv' (by omega)
+        refine ⟨i1, ?_⟩
+        rw [i2, hsplit]
+        simp only [MsWriter.view, bitsLSB, List.append_nil]
+        rw [unpackL_snoc]
+        have hmid : (if lastFF false m.buf = true then bitsLSB 7 B else bitsLSB 8 B) =
+            bitsLSB m.usedBits m.tmp ++ bitsLSB t cwd := by
+          rw [← hreg, hfull', hi.maxb]
+          by_cases hff : lastFF false m.buf = true <;> simp [hff]
+        rw [hmid]
+        simp only [List.append_assoc]
+      · simp only [hfull, if_false]
+        have hinv' : MsWriter.Inv { m with tmp := m.tmp + cwd % 2 ^ t * 2 ^ m.usedBits, usedBits := m.usedBits + t } :=
+          ⟨by show m.usedBits + t < m.maxBits; omega, hlt, hi.maxb, hi.stuffed, hi.bytes⟩
+        obtain ⟨i1, i2⟩ := ih _ (cwd / 2 ^ t) (len - t) hinv' (by omega)
+        refine ⟨i1, ?_⟩
+        rw [i2, hsplit]
+        simp only [MsWriter.view]
+        rw [hreg]
+        simp [List.append_assoc]
+
+theorem sbit_append_ones (l : List Bool) (n i : Nat) : sbit (l ++ List.replicate n true) i = sbit l i := by
+  unfold sbit
+  by_cases h : i < l.length
+  · simp [List.getD_eq_getElem?_getD, List.getElem?_append_left h]
+  · have h' : l.length ≤ i := by omega
+    rw [List.getD_eq_getElem?_getD, List.getD_eq_getElem?_getD, List.getElem?_append_right h',
+      List.getElem?_eq_none h']
+    by_cases h2 : i - l.length < n
+    · simp [h2]
+    · simp [h2]
+
+theorem stuffed_snoc_inv (ff : Bool) (a : List Nat) (x : Nat) (h : Stuffed ff (a ++ [x])) (hl : lastFF ff a = true) :
+    x < 128 := by
+  induction a generalizing ff with
+  | nil => exact h.1 hl
+  | cons y ys ih => exact ih _ h.2 hl
+
+/-- what the MagSgn decoder sees in the terminated bytes is the written bit stream continued by 1s -/
+theorem msw_terminate (m : MsWriter) (hi : m.Inv) (i : Nat) :
+    sbit (unpackL false m.terminate) i = sbit m.view i := by
+  have hmax8 : m.maxBits ≤ 8 := by rw [hi.maxb]; split <;> omega
+  unfold MsWriter.terminate
+  by_cases hu : m.usedBits = 0
+  · simp only [hu, ne_eq, not_true_eq_false, if_false]
+    have hv : m.view = unpackL false m.buf := by simp [MsWriter.view, hu, bitsLSB]
+    by_cases h7 : m.maxBits = 7 ∧ m.buf.length > 0
+    · simp only [h7, and_self, if_true]
+      -- the last byte is 0xFF, written with 8 bits
+      have hff : lastFF false m.buf = true := by
+        have := hi.maxb; rw [h7.1] at this
+        by_cases hf : lastFF false m.buf = true
+        · exact hf
+        · simp [hf] at this
+      obtain ⟨a, x, hax⟩ : ∃ a x, m.buf = a ++ [x] := by
+        have hne : m.buf ≠ [] := by intro h; rw [h] at h7; simp at h7
+        exact ⟨m.buf.dropLast, m.buf.getLast hne, (List.dropLast_concat_getLast hne).symm⟩
+      rw [hax, lastFF_snoc] at hff
+      have hx : x = 255 := by simpa using hff
+      subst hx
+      have hst := hi.stuffed
+      rw [hax] at hst
+      have hla : lastFF false a = false := by
+        by_cases hl : lastFF false a = true
+        · have := stuffed_snoc_inv false a 255 hst hl; omega
+        · simpa using hl
+      rw [hv, hax, List.dropLast_concat, unpackL_snoc, hla]
+      have : bitsLSB 8 255 = List.replicate 8 true := by decide
+      simp only [Bool.false_eq_true, if_false, this]
+      rw [sbit_append_ones]
+    · simp only [h7, if_false]; rw [hv]
+  · simp only [hu, ne_eq, not_false_eq_true, if_true]
+    have hused := hi.used
+    generalize ht : m.maxBits - m.usedBits = t
+    have htpos : 1 ≤ t := by omega
+    have ht8 : t ≤ 8 := by omega
+    have hones : (2 ^ t - 1) % 256 = 2 ^ t - 1 := by
+      apply Nat.mod_eq_of_lt
+      have : 2 ^ t ≤ 2 ^ 8 := Nat.pow_le_pow_right (by omega) ht8
+      have := Nat.two_pow_pos t
+      omega
+    rw [hones]
+    have hreg : bitsLSB m.maxBits (m.tmp + (2 ^ t - 1) * 2 ^ m.usedBits) =
+        bitsLSB m.usedBits m.tmp ++ List.replicate t true := by
+      have : m.maxBits = m.usedBits + t := by omega
+      rw [this, bitsLSB_concat _ _ _ _ hi.tmp, bitsLSB_ones]
+    have hlt : m.tmp + (2 ^ t - 1) * 2 ^ m.usedBits < 2 ^ m.maxBits := by
+      have e : m.maxBits = m.usedBits + t := by omega
+      rw [e, Nat.pow_add, Nat.sub_mul, Nat.one_mul, Nat.mul_comm (2 ^ t)]
+      have h3 : 2 ^ m.usedBits ≤ 2 ^ m.usedBits * 2 ^ t := Nat.le_mul_of_pos_right _ (Nat.two_pow_pos t)
+      have := hi.tmp
+      omega
+    have hb256 : m.tmp + (2 ^ t - 1) * 2 ^ m.usedBits < 256 := by
+      have : 2 ^ m.maxBits ≤ 2 ^ 8 := Nat.pow_le_pow_right (by omega) hmax8
+      omega
+    rw [Nat.mod_eq_of_lt hb256]
+    generalize hB : m.tmp + (2 ^ t - 1) * 2 ^ m.usedBits = B at *
+    by_cases h255 : B = 255
+    · -- dropped: the open byte was all ones, written with 8 bits
+      simp only [h255, ne_eq, not_true_eq_false, if_false]
+      have hm8 : m.maxBits = 8 := by
+        by_cases h : m.maxBits = 8
+        · exact h
+        · have : m.maxBits ≤ 7 := by omega
+          have : 2 ^ m.maxBits ≤ 2 ^ 7 := Nat.pow_le_pow_right (by omega) this
+          omega
+      rw [hm8, h255] at hreg
+      have h8 : bitsLSB 8 255 = List.replicate 8 true := by decide
+      rw [h8] at hreg
+      -- so the pending bits are all ones
+      have hpend : bitsLSB m.usedBits m.tmp = List.replicate m.usedBits true := by
+        have hlen : (bitsLSB m.usedBits m.tmp).length = m.usedBits := bitsLSB_length _ _
+        have := congrArg (List.take m.usedBits) hreg
+        rw [List.take_left' hlen] at this
+        rw [← this, List.take_replicate]
+        congr 1; omega
+      simp only [MsWriter.view, hpend]
+      rw [sbit_append_ones]
+    · simp only [h255, ne_eq, not_false_eq_true, if_true]
+      rw [unpackL_snoc]
+      have hmid : (if lastFF false m.buf = true then bitsLSB 7 B else bitsLSB 8 B) = bitsLSB m.maxBits B := by
+        rw [hi.maxb]; by_cases hff : lastFF false m.buf = true <;> simp [hff]
+      rw [hmid, hreg, ← List.append_assoc]
+      show sbit (m.view ++ _) i = _
+      rw [sbit_append_ones]
+
+
+/-! ## MagSgn reader lemmas and round trip -/
+
+def MsReader.view (r : MsReader) : List Bool :=
+  bitsLSB r.bitCount r.bitBuffer ++ unpackL (decide (r.lastByte = 255)) r.rest
+
+def MsReader.Inv (r : MsReader) : Prop := r.bitBuffer < 2 ^ r.bitCount ∧ ∀ x ∈ r.rest, x < 256
+
+theorem lt_pow_add (buf cnt x k : Nat) (hb : buf < 2 ^ cnt) (hx : x < 2 ^ k) : buf + x * 2 ^ cnt < 2 ^ (cnt + k) := by
+  rw [Nat.pow_add]
+  have h1 : x * 2 ^ cnt ≤ (2 ^ k - 1) * 2 ^ cnt := Nat.mul_le_mul_right _ (by omega)
+  rw [Nat.sub_mul, Nat.one_mul] at h1
+  have h3 : 2 ^ cnt ≤ 2 ^ k * 2 ^ cnt := Nat.le_mul_of_pos_left _ (Nat.two_pow_pos k)
+  rw [Nat.mul_comm (2 ^ cnt) (2 ^ k)]
+  omega
+
+theorem msr_fill (n : Nat) (rest : List Nat) : ∀ (buf cnt last : Nat), buf < 2 ^ cnt → (∀ x ∈ rest, x < 256) →
+    (MsReader.fill n rest buf cnt last).Inv ∧
+    (MsReader.fill n rest buf cnt last).view = bitsLSB cnt buf ++ unpackL (decide (last = 255)) rest ∧
+    ((MsReader.fill n rest buf cnt last).bitCount < n → (MsReader.fill n rest buf cnt last).rest = []) := by
+  induction rest with
+  | nil => intro buf cnt last hb _; exact ⟨⟨hb, by simp [MsReader.fill]⟩, rfl, fun _ => rfl⟩
+  | cons b rest ih =>
+    intro buf cnt last hb hr
+    have hb256 : b < 256 := hr b (List.mem_cons_self)
+    have hr' : ∀ x ∈ rest, x < 256 := fun x hx => hr x (List.mem_cons_of_mem _ hx)
+    unfold MsReader.fill
+    by_cases hc : cnt < n
+    · simp only [hc, if_true]
+      by_cases hl : last = 255
+      · simp only [hl, if_true]
+        have hx : b % 128 < 2 ^ 7 := Nat.mod_lt _ (by decide)
+        obtain ⟨i1, i2, i3⟩ := ih (buf + b % 128 * 2 ^ cnt) (cnt + 7) b (lt_pow_add _ _ _ _ hb hx) hr'
+        refine ⟨i1, ?_, i3⟩
+        rw [i2, bitsLSB_concat _ _ _ _ hb]
+        have : bitsLSB 7 (b % 128) = bitsLSB 7 b := bitsLSB_mod 7 b
+        simp [unpackL, this, List.append_assoc]
+      · simp only [hl, if_false]
+        have hx : b < 2 ^ 8 := hb256
+        obtain ⟨i1, i2, i3⟩ := ih (buf + b * 2 ^ cnt) (cnt + 8) b (lt_pow_add _ _ _ _ hb hx) hr'
+        refine ⟨i1, ?_, i3⟩
+        rw [i2, bitsLSB_concat _ _ _ _ hb]
+        simp [unpackL, hl, List.append_assoc]
+    · simp only [hc, if_false]
+      exact ⟨⟨hb, hr⟩, rfl, fun h => by simp at h⟩
+
+theorem msr_pad (f n : Nat) : ∀ (r : MsReader), r.Inv → r.rest = [] →
+    (MsReader.pad f n r).Inv ∧ (∀ i, sbit (MsReader.pad f n r).view i = sbit r.view i) ∧
+    (n ≤ r.bitCount + 7 * f → n ≤ (MsReader.pad f n r).bitCount) := by
+  induction f with
+  | zero => intro r hi _; exact ⟨hi, fun _ => rfl, fun h => by simpa [MsReader.pad] using h⟩
+  | succ f ih =>
+    intro r hi hr
+    unfold MsReader.pad
+    by_cases hc : r.bitCount < n
+    · simp only [hc, if_true]
+      by_cases hl : r.lastByte = 255
+      · simp only [hl, if_true]
+        have hinv : MsReader.Inv { r with bitBuffer := r.bitBuffer + 127 * 2 ^ r.bitCount, bitCount := r.bitCount + 7, lastByte := 255 } :=
+          ⟨lt_pow_add _ _ _ 7 hi.1 (by decide), hi.2⟩
+        obtain ⟨i1, i2, i3⟩ := ih _ hinv hr
+        refine ⟨i1, ?_, fun h => i3 (by show n ≤ r.bitCount + 7 + 7 * f; omega)⟩
+        intro i
+        rw [i2 i]
+        simp only [MsReader.view, hr, unpackL, List.append_nil]
+        rw [bitsLSB_concat _ _ _ _ hi.1]
+        have : bitsLSB 7 127 = List.replicate 7 true := by decide
+        rw [this, sbit_append_ones]
+      · simp only [hl, if_false]
+        have hinv : MsReader.Inv { r with bitBuffer := r.bitBuffer + 255 * 2 ^ r.bitCount, bitCount := r.bitCount + 8, lastByte := 255 } :=
+          ⟨lt_pow_add _ _ _ 8 hi.1 (by decide), hi.2⟩
+        obtain ⟨i1, i2, i3⟩ := ih _ hinv hr
+        refine ⟨i1, ?_, fun h => i3 (by show n ≤ r.bitCount + 8 + 7 * f; omega)⟩
+        intro i
+        rw [i2 i]
+        simp only [MsReader.view, hr, unpackL, List.append_nil]
+        rw [bitsLSB_concat _ _ _ _ hi.1]
+        have : bitsLSB 8 255 = List.replicate 8 true := by decide
+        rw [this, sbit_append_ones]
+    · simp only [hc, if_false]
+      exact ⟨hi, fun _ => by trivial, fun _ => by omega⟩
+
+theorem sbit_append_left (p q : List Bool) (i : Nat) (h : i < p.length) : sbit (p ++ q) i = p[i] := by
+  unfold sbit
+  rw [List.getD_eq_getElem?_getD, List.getElem?_append_left h, List.getElem?_eq_getElem h]; rfl
+
+theorem sbit_append_right (p q : List Bool) (i : Nat) : sbit (p ++ q) (p.length + i) = sbit q i := by
+  unfold sbit
+  rw [List.getD_eq_getElem?_getD, List.getD_eq_getElem?_getD, List.getElem?_append_right (by omega)]
+  congr 2; omega
+
+theorem msr_read (r : MsReader) (n : Nat) (hi : r.Inv) (hn : 1 ≤ n) (B S : List Bool) (hB : B.length = n)
+    (hs : ∀ i, sbit r.view i = sbit (B ++ S) i) :
+    (r.readBits n).1 = valLSB B ∧ (r.readBits n).2.2.Inv ∧ ∀ i, sbit (r.readBits n).2.2.view i = sbit S i := by
+  have hn0 : n ≠ 0 := by omega
+  obtain ⟨f1, f2, f3⟩ := msr_fill n r.rest r.bitBuffer r.bitCount r.lastByte hi.1 hi.2
+  -- the state after both loops
+  have key : ∃ r2 : MsReader, r2.Inv ∧ n ≤ r2.bitCount ∧ (∀ i, sbit r2.view i = sbit (B ++ S) i) ∧
+      r.readBits n = (r2.bitBuffer % 2 ^ n, decide (¬ (MsReader.fill n r.rest r.bitBuffer r.bitCount r.lastByte).bitCount < n),
+        { r2 with bitBuffer := r2.bitBuffer / 2 ^ n, bitCount := r2.bitCount - n }) := by
+    by_cases hc : (MsReader.fill n r.rest r.bitBuffer r.bitCount r.lastByte).bitCount < n
+    · obtain ⟨p1, p2, p3⟩ := msr_pad n n _ f1 (f3 hc)
+      refine ⟨_, p1, p3 (by omega), ?_, ?_⟩
+      · intro i; rw [p2 i, f2]; exact hs i
+      · simp [MsReader.readBits, hn0, hc]
+    · refine ⟨_, f1, by omega, ?_, ?_⟩
+      · intro i; rw [f2]; exact hs i
+      · simp [MsReader.readBits, hn0, hc]
+  obtain ⟨r2, i1, i2, i3, i4⟩ := key
+  rw [i4]
+  have hsplit : bitsLSB r2.bitCount r2.bitBuffer =
+      bitsLSB n r2.bitBuffer ++ bitsLSB (r2.bitCount - n) (r2.bitBuffer / 2 ^ n) := by
+    rw [← bitsLSB_add]; congr 1; omega
+  have hview : r2.view = bitsLSB n r2.bitBuffer ++
+      (bitsLSB (r2.bitCount - n) (r2.bitBuffer / 2 ^ n) ++ unpackL (decide (r2.lastByte = 255)) r2.rest) := by
+    simp only [MsReader.view, hsplit, List.append_assoc]
+  have hlen : (bitsLSB n r2.bitBuffer).length = n := bitsLSB_length _ _
+  have hpre : bitsLSB n r2.bitBuffer = B := by
+    apply List.ext_getElem (by rw [hlen, hB])
+    intro i h1 h2
+    have a := i3 i
+    rw [hview, sbit_append_left _ _ i h1, sbit_append_left _ _ i h2] at a
+    exact a
+  refine ⟨?_, ?_, ?_⟩
+  · show r2.bitBuffer % 2 ^ n = valLSB B
+    rw [← hpre, valLSB_bitsLSB]
+  · refine ⟨?_, i1.2⟩
+    show r2.bitBuffer / 2 ^ n < 2 ^ (r2.bitCount - n)
+    apply Nat.div_lt_of_lt_mul
+    rw [← Nat.pow_add, show n + (r2.bitCount - n) = r2.bitCount by omega]
+    exact i1.1
+  · intro i
+    have a := i3 (n + i)
+    rw [hview] at a
+    have e1 : sbit (bitsLSB n r2.bitBuffer ++
+        (bitsLSB (r2.bitCount - n) (r2.bitBuffer / 2 ^ n) ++ unpackL (decide (r2.lastByte = 255)) r2.rest)) (n + i) =
+        sbit (bitsLSB (r2.bitCount - n) (r2.bitBuffer / 2 ^ n) ++ unpackL (decide (r2.lastByte = 255)) r2.rest) i := by
+      have := sbit_append_right (bitsLSB n r2.bitBuffer)
+        (bitsLSB (r2.bitCount - n) (r2.bitBuffer / 2 ^ n) ++ unpackL (decide (r2.lastByte = 255)) r2.rest) i
+      rw [hlen] at this; exact this
+    have e2 : sbit (B ++ S) (n + i) = sbit S i := by
+      have := sbit_append_right B S i
+      rw [hB] at this; exact this
+    rw [e1, e2] at a
+    exact a
+
+/-- the written stream of a list of (codeword, length) pairs -/
+def msBits : List (Nat × Nat) → List Bool
+  | [] => []
+  | (cwd, len) :: ws => bitsLSB len cwd ++ msBits ws
+
+theorem msw_all (ws : List (Nat × Nat)) : ∀ (m : MsWriter), m.Inv →
+    (m.encodeAll ws).Inv ∧ (m.encodeAll ws).view = m.view ++ msBits ws := by
+  induction ws with
+  | nil => intro m hi; exact ⟨hi, by simp [MsWriter.encodeAll, msBits]⟩
+  | cons w ws ih =>
+    intro m hi
+    obtain ⟨cwd, len⟩ := w
+    obtain ⟨a1, a2⟩ := msw_loop len m cwd len hi (Nat.le_refl _)
+    obtain ⟨b1, b2⟩ := ih (m.encode cwd len) a1
+    refine ⟨b1, ?_⟩
+    show ((m.encode cwd len).encodeAll ws).view = _
+    rw [b2]
+    show (MsWriter.encodeLoop len m cwd len).view ++ _ = _
+    rw [a2]; simp [msBits, List.append_assoc]
+
+theorem msr_all (ws : List (Nat × Nat)) : ∀ (r : MsReader) (S : List Bool), r.Inv →
+    (∀ w ∈ ws, 1 ≤ w.2) → (∀ i, sbit r.view i = sbit (msBits ws ++ S) i) →
+    r.readAll (ws.map (·.2)) = ws.map (fun w => w.1 % 2 ^ w.2) := by
+  induction ws with
+  | nil => intro r S _ _ _; rfl
+  | cons w ws ih =>
+    intro r S hi hpos hs
+    obtain ⟨cwd, len⟩ := w
+    have hl : 1 ≤ len := hpos (cwd, len) (List.mem_cons_self)
+    have hs' : ∀ i, sbit r.view i = sbit (bitsLSB len cwd ++ (msBits ws ++ S)) i := by
+      intro i; rw [hs i]; simp [msBits, List.append_assoc]
+    obtain ⟨v1, v2, v3⟩ := msr_read r len hi hl (bitsLSB len cwd) (msBits ws ++ S) (bitsLSB_length _ _) hs'
+    simp only [List.map_cons, MsReader.readAll]
+    rw [v1, valLSB_bitsLSB]
+    congr 1
+    exact ih _ S v2 (fun w hw => hpos w (List.mem_cons_of_mem _ hw)) v3
+
+/-- MagSgn bit packing round trip: every codeword written by `ojphMSWriter.encode` (1 ≤ len) is read back by
+    `MagSgnDecoder.readBits` with the same lengths, from the bytes `terminate` leaves -/
+theorem magsgn_roundtrip' (ws : List (Nat × Nat)) (hpos : ∀ w ∈ ws, 1 ≤ w.2) :
+    MsReader.readAll { rest := ((({} : MsWriter).encodeAll ws).terminate) } (ws.map (·.2)) =
+      ws.map (fun w => w.1 % 2 ^ w.2) := by
+  have hinv0 : ({} : MsWriter).Inv := ⟨by decide, by decide, by decide, trivial, by simp⟩
+  obtain ⟨a1, a2⟩ := msw_all ws {} hinv0
+  have hbytes : ∀ x ∈ (({} : MsWriter).encodeAll ws).terminate, x < 256 := by
+    intro x hx
+    generalize ({} : MsWriter).encodeAll ws = m at a1 hx
+    unfold MsWriter.terminate at hx
+    split at hx
+    · simp only at hx
+      split at hx
+      · rcases List.mem_append.mp hx with h | h
+        · exact a1.bytes x h
+        · rw [List.mem_singleton] at h
+          rw [h]; exact Nat.mod_lt _ (by decide)
+      · exact a1.bytes x hx
+    · split at hx
+      · exact a1.bytes x (List.dropLast_subset _ hx)
+      · exact a1.bytes x hx
+  have hr0 : MsReader.Inv { rest := (({} : MsWriter).encodeAll ws).terminate } := ⟨Nat.one_pos, hbytes⟩
+  apply msr_all ws _ [] hr0 hpos
+  intro i
+  show sbit (unpackL false _) i = _
+  rw [msw_terminate _ a1 i, a2]
+  simp [MsWriter.view, unpackL, bitsLSB]
+
+
+/-! ## Fusion byte lemmas -/
+
+theorem xor_eq_zero {a b : Nat} (h : a ^^^ b = 0) : a = b := by
+  have : a ^^^ (a ^^^ b) = a ^^^ 0 := by rw [h]
+  rw [← Nat.xor_assoc, Nat.xor_self, Nat.xor_zero, Nat.zero_xor] at this
+  exact this.symm
+
+/-- the fusion condition means: the shared byte agrees with the MEL register on MEL's bits and with the VLC register
+    on VLC's bits — nothing either reader looks at is changed by sharing the byte -/
+theorem fusion_condition (melTmp vlcTmp melMask vlcMask : Nat)
+    (h : (((melTmp ||| vlcTmp) ^^^ melTmp) &&& melMask) ||| (((melTmp ||| vlcTmp) ^^^ vlcTmp) &&& vlcMask) = 0) :
+    (melTmp ||| vlcTmp) &&& melMask = melTmp &&& melMask ∧ (melTmp ||| vlcTmp) &&& vlcMask = vlcTmp &&& vlcMask := by
+  obtain ⟨h1, h2⟩ := Nat.or_eq_zero_iff.mp h
+  rw [Nat.and_xor_distrib_right] at h1 h2
+  exact ⟨xor_eq_zero h1, xor_eq_zero h2⟩
+
+/-- the suffix always holds at least the two bytes the Scup locator is written into, given the VLC writer's own
+    invariant (it starts as `[0xFF]` with 4 used bits; `usedBits = 0` only right after a byte was appended) -/
+theorem scup_at_least_two (pk : MelPacker) (vlcBuf : List Nat) (vlcTmp vlcUsed : Nat)
+    (hbuf : 1 ≤ vlcBuf.length) (hinv : vlcUsed = 0 → 2 ≤ vlcBuf.length) (hu : vlcUsed ≤ 8) :
+    2 ≤ scupOf (terminateMelVlc pk vlcBuf vlcTmp vlcUsed) := by
+  unfold terminateMelVlc scupOf
+  by_cases hz : vlcUsed = 0
+  · have := hinv hz
+    simp only [hz, Nat.lt_irrefl, if_false]
+    split
+    · simp; omega
+    · split <;> simp <;> omega
+  · have hpos : vlcUsed > 0 := by omega
+    have hm : (0xFF / 2 ^ (8 - vlcUsed)) ≠ 0 := by
+      have h8 : vlcUsed = 1 ∨ vlcUsed = 2 ∨ vlcUsed = 3 ∨ vlcUsed = 4 ∨ vlcUsed = 5 ∨ vlcUsed = 6 ∨ vlcUsed = 7 ∨ vlcUsed = 8 := by omega
+      rcases h8 with h | h | h | h | h | h | h | h <;> subst h <;> decide
+    simp only [hpos, if_true]
+    have hne : ¬ (0xFF * 2 ^ pk.remainingBits % 256 ||| 0xFF / 2 ^ (8 - vlcUsed) = 0) := by
+      intro h; exact hm (Nat.or_eq_zero_iff.mp h).2
+    simp only [hne, if_false]
+    split <;> simp <;> omega
+
+/-! ## Second decomposition: HL/LH bands by interval composition -/
+
+/-- LL band after one decomposition (both directions): gain 9/4 plus rounding -/
+def inLL1 (M x : Int) : Prop := (-(9 * M + 8)) / 4 ≤ x ∧ x ≤ (9 * M + 4) / 4
+/-- first pass of the second decomposition on LL1 values: low (gain 27/8) and high (gain 9/2) -/
+def inLow2a (M x : Int) : Prop := (-(27 * M + 32)) / 8 ≤ x ∧ x ≤ (27 * M + 24) / 8
+def inHigh2a (M x : Int) : Prop := -((9 * M + 8) / 2) ≤ x ∧ x ≤ (9 * M + 8) / 2
+
+theorem pass2_LL_interval (M a b c d e : Int) (ha : inLow1 M a) (hb : inLow1 M b) (hc : inLow1 M c)
+    (hd : inLow1 M d) (he : inLow1 M e) :
+    inLL1 M (lift53Low (lift53High a b c) c (lift53High c d e)) := by
+  unfold inLow1 at *; unfold inLL1 lift53Low lift53High; omega
+
+theorem lvl2_pass1_low (M a b c d e : Int) (ha : inLL1 M a) (hb : inLL1 M b) (hc : inLL1 M c)
+    (hd : inLL1 M d) (he : inLL1 M e) :
+    inLow2a M (lift53Low (lift53High a b c) c (lift53High c d e)) := by
+  unfold inLL1 at *; unfold inLow2a lift53Low lift53High; omega
+
+theorem lvl2_pass1_high (M a b c : Int) (ha : inLL1 M a) (hb : inLL1 M b) (hc : inLL1 M c) :
+    inHigh2a M (lift53High a b c) := by
+  unfold inLL1 at *; unfold inHigh2a lift53High; omega
+
+theorem lvl2_highOfLow (M a b c : Int) (hM : 8 ≤ M) (ha : inLow2a M a) (hb : inLow2a M b) (hc : inLow2a M c) :
+    (-(8 * M) < lift53High a b c) ∧ lift53High a b c < 8 * M := by
+  unfold inLow2a at *; unfold lift53High; omega
+
+theorem lvl2_lowOfHigh (M a b c d e : Int) (hM : 8 ≤ M) (ha : inHigh2a M a) (hb : inHigh2a M b) (hc : inHigh2a M c)
+    (hd : inHigh2a M d) (he : inHigh2a M e) :
+    (-(8 * M) < lift53Low (lift53High a b c) c (lift53High c d e)) ∧
+      lift53Low (lift53High a b c) c (lift53High c d e) < 8 * M := by
+  unfold inHigh2a at *; unfold lift53Low lift53High; omega
+
+/-- 2^Kmax of the HL and LH bands of the second decomposition (numLevels = 2, resolution 1) is 8·2^(precision-1) -/
+theorem kmax_level2_hl_lh (bd : Nat) (rct : Bool) (band : Nat) (hbd : 1 ≤ bd) (hband : band = 1 ∨ band = 2) :
+    ((2 ^ (encBandNumbps 2 bd rct 1 band).toNat : Nat) : Int) = 8 * 2 ^ (bd + rct.toNat - 1) := by
+  rw [kmax_toNat 2 bd rct 1 band (by omega) hbd]
+  have hb : biboLog2 2 1 band = 3 := by rcases hband with rfl | rfl <;> decide
+  rw [hb, Nat.pow_add]
+  simp [Int.natCast_pow, Int.mul_comm]
+
 end Htj2k
